@@ -17,10 +17,10 @@ RULE = ("baseline two-party scripts (allocate/set/input, 0-6 messages, Deferred 
 ASSUMPTIONS = ["a mailbox whose id the client never learned (close before `claimed`) cannot be closed by it: exempt",
                "a nameplate the server allocated whose `allocated` reply was lost is exempt",
                "bounded progress: 300 virtual seconds of stable connectivity"]
-FLOORS = {"quick": {"closed_sides": 1500, "close_mid_protocol": 500, "verdict_Lonely": 50, "verdict_happy": 50,
+FLOORS = {"quick": {"scared_sides_whose_close_the_server_refused": 3, "closed_sides": 1500, "close_mid_protocol": 500, "verdict_Lonely": 50, "verdict_happy": 50,
                     "verdict_WrongPassword": 10, "verdict_ServerError": 5, "verdict_WelcomeError": 5,
                     "gets_after_closed": 3000, "unread_backlog_at_closed": 30, "unreachable_cases": 30},
-          "thorough": {"closed_sides": 30000, "close_mid_protocol": 10000, "gets_after_closed": 100000, "unread_backlog_at_closed": 1000, "unreachable_cases": 800}}
+          "thorough": {"scared_sides_whose_close_the_server_refused": 80, "closed_sides": 30000, "close_mid_protocol": 10000, "gets_after_closed": 100000, "unread_backlog_at_closed": 1000, "unreachable_cases": 800}}
 MOOD = {"happy": "happy", "LonelyError": "lonely", "WrongPasswordError": "scary",
         "ServerError": "errory", "WelcomeError": "unwelcome"}
 
@@ -63,6 +63,10 @@ def cases(tier, seed, prep=None):
         out.append({"kind": "mismatch", "seed": seed * 1000003 + 910000 + i, "close_at": (i * 7) % 160, "who": "AB"[i % 2]})
     for i in range(30 if q else 800):
         out.append({"kind": "crowded", "seed": seed * 1000003 + 920000 + i})
+    # a pair with DIFFERENT codes whose mailbox is crowded by a third side, with reconnects: the server may refuse the
+    # close of a side that has just closed itself scared - which must not change its verdict
+    for i in range(40 if q else 1200):
+        out.append({"kind": "crowded", "seed": seed * 1000003 + 925000 + i, "mismatch": True, "drops": 1 + i % 3})
     for i in range(40 if q else 1000):
         out.append({"kind": "late-unwelcome", "seed": seed * 1000003 + 940000 + i, "at": 20 + (i * 13) % 250, "who": "AB"[i % 2]})
     for i in range(20 if q else 500):
@@ -177,13 +181,28 @@ def run_case(spec):
     if kind == "mismatch":
         drv.code_for_b = lambda: (None if drv.a.code is None else drv.a.code + "-x")
     third = None
+    if kind == "crowded" and spec.get("mismatch"):
+        drv.code_for_b = lambda: (None if drv.a.code is None else drv.a.code + "-x")
+        for _ in range(spec.get("drops", 0)):
+            sch.faults.append((rng.randint(10, 200), lambda n=rng.choice("AB"): drv.drop(n), "drop"))
+        sch.faults.sort(key=lambda f: f[0])
+        # ... and the connection of a side is lost right after it got scared: its close goes out on the next connection
+        dropped_on_scare = set()
+
+        def scare_hook():
+            for n_ in "AB":
+                if n_ not in dropped_on_scare and any(i == "scared" for (_, _, i) in drv.app(n_).binputs):
+                    dropped_on_scare.add(n_)
+                    if spec["seed"] % 4 != 3:
+                        drv.drop(n_)
+        sch.hook = scare_hook
     if kind == "crowded":
         base_actions = drv.actions
 
         def actions():
             acts = base_actions()
             nonlocal third
-            if third is None and drv.a.code and drv.b_started and rng.random() < 0.2:
+            if third is None and drv.a.code and drv.b_started and rng.random() < 0.2 and not (spec.get("mismatch") and any(a_.close_calls for a_ in apps)):
                 def mk():
                     nonlocal third
                     third = WApp(world, "C", api=rng.choice(["deferred", "delegate"]))
@@ -296,10 +315,11 @@ def run_case(spec):
         # ground truth of the Boss inputs themselves
         inputs = [i for (_, _, i) in app.binputs]
         mismatch = kind == "mismatch"
-        if "scared" in inputs and not mismatch:
+        mixed = kind == "crowded" and bool(spec.get("mismatch"))      # (A and the third side share a code, B has another: either may happen)
+        if "scared" in inputs and not mismatch and not mixed:
             viol.append({"key": "C08/scared-without-cause", "msg": "%s got scared with matching codes and an honest server" % app.name,
                          "witness": wit()})
-        if "happy" in inputs and mismatch:
+        if "happy" in inputs and mismatch and not mixed:
             viol.append({"key": "C08/happy-with-wrong-code", "msg": app.name, "witness": wit()})
         if "rx_error" in inputs and not any(s == side for (_, s, _, _) in world.server_errors):
             viol.append({"key": "C08/rx_error-without-server-error", "msg": app.name, "witness": wit()})
@@ -336,6 +356,8 @@ def run_case(spec):
                 viol.append({"key": "C08/server-rejected-%s/%s" % (orig, err.replace(" ", "-")[:40]),
                              "msg": "%s: the server answered our %s with error %r" % (app.name, orig, err), "witness": wit()})
                 break
+        if refused and "scared" in inputs:
+            counters["scared_sides_whose_close_the_server_refused"] = counters.get("scared_sides_whose_close_the_server_refused", 0) + 1
         if mb_known is not None and refused:
             counters["server_refused_close"] = counters.get("server_refused_close", 0) + 1
         if mb_known is not None and not refused:
